@@ -97,4 +97,21 @@ PROPS = {
         assumptions=['scripted peers at quiescence granularity inside a testing/synctest bubble (go1.26): one stimulus, then every goroutine of the broker durably blocked, then the next',
                      'not modelled: a publish blocking on the full queue of another online client, a processor blocked on an exhausted publish/subscribe token (the generators stay inside; the model answers unsupported otherwise)'],
     ),
+    'C19': dict(
+        harness='conntrace', syn=True, race=True, args=['-prop', 'C19'], shards=dict(quick=8, thorough=16),
+        rule='real transport.BaseConn over an instrumented in-memory carrier inside a testing/synctest bubble. Scripted: random call sequences '
+             '(sends of 0..10 kB from 1-4 senders sync/async, unencodable packets, Close, Receive, flush-delay and read-timeout expiry, peer data whole/split/'
+             'malformed, peer close, faults at the k-th write/read/close/deadline call, flush delay 0..50 ms, carriers whose SetReadDeadline fails / succeeds '
+             'after close), one call at quiescence, outcome + wire + writer buffer + error flags compared with the model line by line. Concurrent: 1-16 senders x '
+             'closer(s) x receiver on pre-drawn schedules of the fake clock (calls of one instant run in parallel), faults and inbound data at random instants; '
+             'each instant is one group the model must explain by SOME interleaving (acceptor). Independent monitors on the wire and the call records; TCP and '
+             'WebSocket loopback pairs; distinct = distinct cases',
+        assumptions=['atomicity of Send / Close / Receive / the timer callback rests on sendMutex, receiveMutex and mercury\'s mutex (structural facts) and on the '
+                     'thorough tier running the harness under the race detector',
+                     'calls of one fake-clock instant are really concurrent, but the schedules explored are those the Go scheduler produces, not all of them',
+                     'a carrier read hands over everything available (true while inbound data fits the 4096-byte reader buffer: the generators stay inside); '
+                     'partial carrier writes are not modelled',
+                     'the model comparison reads unexported fields of bufio.Writer / mercury.Writer by reflection at quiescence (monitors do not)'],
+        trusted=['go1.26 testing/synctest fake clock'],
+    ),
 }
